@@ -148,7 +148,7 @@ func renderRouterSpec(o rSpecOpts) string {
 func genRouterFamily(c *Ctx, filter func(string) bool) {
 	depth, nsets, maxSet := 3, 56, 3
 	if c.Tier == "thorough" {
-		nsets, maxSet = 400, 4
+		nsets, maxSet = 160, 4
 	}
 	all := allRTemplates(depth)
 	rng := rand.New(rand.NewSource(c.Seed*7919 + 17))
